@@ -2,7 +2,12 @@
 
 package main
 
-import "strings"
+import (
+	"strings"
+	"sync"
+
+	"github.com/ddddddO/gtree"
+)
 
 func verifyLists(msg string) string {
 	// "Extra paths exist:\n\t<p>\n...Required paths does not exist:\n\t<p>..."
@@ -22,5 +27,40 @@ func verifyLists(msg string) string {
 }
 
 func handleMore(toks []string) (string, bool) {
+	switch toks[0] {
+	case "hist":
+		return runHist(toks[1], false), true
+	case "mhist":
+		return runHist(toks[1], true), true
+	case "chist":
+		// histories separated by '#', each run in its own goroutine behind a start barrier
+		hs := strings.Split(toks[1], "#")
+		res := make([]string, len(hs))
+		var wg, ready sync.WaitGroup
+		start := make(chan struct{})
+		for i := range hs {
+			wg.Add(1)
+			ready.Add(1)
+			go func(i int) {
+				defer wg.Done()
+				defer func() {
+					if r := recover(); r != nil {
+						res[i] = "panic -"
+					}
+				}()
+				ready.Done()
+				<-start
+				res[i] = runHist(hs[i], false)
+			}(i)
+		}
+		ready.Wait()
+		close(start)
+		wg.Wait()
+		return strings.Join(res, "#"), true
+	}
+	return "", false
+}
+
+func histMore(f []string, node func(string) *gtree.Node, massive bool) (string, bool) {
 	return "", false
 }
